@@ -250,6 +250,12 @@ def run_graders(ctx):
             plain = mode == 1
             cfg = dict(numbered_vars=['a'], variables=['x'] + (['a_{0}'] if plain else []),
                        sample_from={'a': base_range, 'x': [21, 22]}, user_functions={'rec': rec}, samples=3)
+            dep_base = rng.random() < 0.3
+            if dep_base:
+                # the base name's sampling set is itself a dependent sampler: every instance is x+10 (x in [21,22], so within [31,32])
+                from mitxgraders import DependentSampler
+                cfg['sample_from']['a'] = DependentSampler(formula='x+10')
+                ctx.count('numbered_base_is_dependent_sampler')
             const_same_name = rng.random() < 0.3
             if const_same_name:
                 # the bare name 'a' is an ordinary constant; only a_{n} are numbered instances
@@ -270,7 +276,7 @@ def run_graders(ctx):
             g = FormulaGrader(answers=ans, **cfg)
             out = lib.call(ctx, g, None, sub)
             ctx.ev()
-            wit = {'answers': ans, 'submission': sub, 'plain_a_{0}': plain, 'constant_named_like_the_numbered_variable': const_same_name, 'constant_named_like_an_instance': inst_const,
+            wit = {'answers': ans, 'submission': sub, 'plain_a_{0}': plain, 'constant_named_like_the_numbered_variable': const_same_name, 'constant_named_like_an_instance': inst_const, 'base_sampler_is_dependent': dep_base,
                    'outcome': out.brief()}
             if not out.returned or out.value['ok'] is not True:
                 ctx.violation('C13:grader:numbered:verdict', 'identical formula not graded correct: %r' % (out.brief(),), wit)
@@ -291,6 +297,9 @@ def run_graders(ctx):
                                           '%r = %r, expected a draw from %r' % (nm, smp[nm], [lo, hi]), dict(wit, sample=smp))
                     if not 21 <= smp.get('x', 0) <= 22:
                         ctx.violation('C13:grader:variable_outside_sampler', 'x = %r' % smp.get('x'), dict(wit, sample=smp))
+                    if not const_same_name and 'a' in smp:
+                        ctx.violation('C13:grader:numbered:spurious_base_name', 'the sample assigns %r to the bare base name a, which is no variable' % (smp['a'],),
+                                      dict(wit, sample=smp))
                     if const_same_name and smp.get('a') != 51.5:
                         ctx.violation('C13:grader:numbered:constant_with_base_name_lost', 'constant a = 51.5, sample has %r' % (smp.get('a', 'nothing'),),
                                       dict(wit, sample=smp))
